@@ -238,13 +238,22 @@ def crash_in_code_under_test(text):
     # frames after the panic line, up to the first blank line that follows a frame list
     tail = text[m.start():]
     frames = re.findall(r"^\s*(\S+)\(.*\)\n\s+(\S+):(\d+)", tail, re.M)
+    # the first goroutine of the report only (the one that crashed)
+    first = tail.split("\n\ngoroutine ", 2)
+    if len(first) > 1:
+        frames = re.findall(r"^\s*(\S+)\(.*\)\n\s+(\S+):(\d+)", "goroutine " + first[1], re.M)
+    via_dep = None
     for fn, path, line in frames:
-        if fn.startswith(("runtime.", "runtime/", "panic", "golang.org/x/sync/singleflight", "testing.", "sync.", "internal/")):
+        if fn.startswith("golang.org/x/sync/singleflight"):
+            # a library only the code under test uses: the flight's function is tailscale/setec's
+            via_dep = via_dep or "%s in %s (%s:%s), a goroutine started by the code under test" % (m.group(1)[:200], fn, "/".join(path.split("/")[-3:]), line)
+            continue
+        if fn.startswith(("runtime.", "runtime/", "panic", "testing.", "sync.", "internal/")):
             continue
         if fn.startswith("github.com/tailscale/setec/") and "/verif/" not in path:
             return "%s in %s (%s:%s)" % (m.group(1)[:200], fn, "/".join(path.split("/")[-3:]), line)
         return None          # the first real frame is the harness's (or a library's): not a verdict
-    return None
+    return via_dep
 
 
 def run_shard(bins, sh, tmp, idx, keep_trace=False):
